@@ -128,6 +128,10 @@ def fmtFull (r : SolveResult Float) (perm : Array Nat) : String :=
   let t := r.traj
   let fl (f : PassRec Float → Float) : String := fmtFloats (t.map f).toArray
   let sol := r.S.solution
+  -- an insufficient-progress verdict of `check_termination` rolls the iterate back by one pass
+  let rb : Nat := match t.getLast? with
+    | some l => if l.isdone && l.status == .insufficientProgress then 1 else 0
+    | none => 0
   s!"np={t.length} px={fmtFloats (cat (t.map (·.vars.x)))} ps={fmtFloats (cat (t.map (·.vars.s)))} " ++
   s!"pz={fmtFloats (cat (t.map (·.vars.z)))} ptau={fl (·.vars.τ)} pkap={fl (·.vars.κ)} " ++
   s!"pmu={fl (·.mu)} psig={fl (·.sigma)} pstep={fl (·.stepLength)} " ++
@@ -146,7 +150,7 @@ def fmtFull (r : SolveResult Float) (perm : Array Nat) : String :=
   s!"x={fmtFloats sol.x} s={fmtFloats sol.s} z={fmtFloats sol.z} " ++
   s!"obj={fmtOptF sol.obj_val} objd={fmtOptF sol.obj_val_dual} rp={fmtOptF sol.r_prim} rd={fmtOptF sol.r_dual} " ++
   s!"imu={fmtFloat r.S.infoMu} isig={fmtFloat r.S.infoSigma} istep={fmtFloat r.S.infoStepLength} " ++
-  s!"perm={fmtNats perm}"
+  s!"perm={fmtNats perm} prov={rb} rb={rb}"
 
 def handle (ch : String) (kv : KV) : String :=
   match ch with
